@@ -11,7 +11,7 @@ from .. import base, docspec, drivers, explore, report
 from . import common
 
 PROP = "C02"
-KQ = ("CE", "CO")
+KQ = ("CE", "CO", "CEG")
 KT = KQ + ("CEE", "CD", "NL", "J")
 
 _WS = re.compile(r"\s+")
